@@ -15,7 +15,10 @@ CLAIMED = {
     'C02': ('DESIGN.md 4 C02',
             'Deductive proof of the exact characterisation of Representation.get_segment_index (first segment in scan order '
             'whose midpoint reaches the timecode, loop origin a multiple of the reference duration) with loop invariants and '
-            'termination, for all durations, timescales and loop counts.',
+            'termination, for all durations, timescales and loop counts; the same characterisation carried through '
+            'calculate_segment_from_timecode / calculate_segment_number_and_time; lemmas: $Time$ exactness, served start '
+            'within half a segment of the $Number$ time, source position = start modulo the reference duration, cross-track '
+            'alignment under divisibility (drift otherwise: known finding).',
             'Trusted: pyvc encoding; z3/cvc5. The handler lines that apply origin_time / sequence_number to the MP4 are not '
             'under contract (evidence not_covered).',
             'contract-based deductive verification (AST->VC generator, z3 + cvc5), native replay of counter-models'),
@@ -51,6 +54,26 @@ CLAIMED['C19'] = (
     'Trusted: pyvc encoding; floats treated as exact reals in the proof (gap covered only by the bounded grid); formatting '
     'model pyvc/models/text.py. Known finding: round trip loses more than a tick above 1 MHz.',
     'contract-based deductive verification (AST->VC generator, z3 + cvc5) + bounded native enumeration for the regex/float text part')
+
+CLAIMED['C01'] = (
+    'DESIGN.md 4 C01',
+    'Proof at the pure layer: exact contracts of calculate_first_and_last_segment_number, '
+    'calculate_segment_number_and_time (availability test with the half-microsecond rounding of timedelta made explicit), '
+    'calculate_segment_from_timecode and LiveMedia.calculate_media_segment_index (raises ValueError = 404 exactly outside the '
+    'window / number range); lemma: every $Number$ whose 5.3.9.5.3 window contains now is accepted, in the region '
+    'leeway >= 2 segment durations; complements are known findings with native witnesses.',
+    'Trusted: pyvc encoding; float as exact real in timescale_to_timedelta (bounded grid under C19). Both sides are assumed to '
+    'be built from the same DashTiming (query-string forwarding is C07). Handler/template layer, init segments and the '
+    '$Time$/SegmentTimeline half: see evidence not_covered.',
+    'contract-based deductive verification (AST->VC generator, z3 + cvc5), native replay (source extraction for handler methods)')
+CLAIMED['C06'] = (
+    'DESIGN.md 4 C06',
+    'Proof at the pure layer: VOD first/last numbers (sn, sn+n-1); VOD number/time -> stored segment map and the 404 (ValueError) '
+    'exactly outside sn..sn+n-1 in LiveMedia.calculate_media_segment_index (vod); generateSegmentList returns init = segment 0 and '
+    'media[k] = [pos(k+1), pos(k+1)+size(k+1)-1] for all n segments (loop invariant, termination).',
+    'Trusted: pyvc encoding. Representation.load, OnDemandMedia.get, templates and calculate_vod_params are not under contract yet '
+    '(evidence not_covered).',
+    'contract-based deductive verification (AST->VC generator, z3 + cvc5), native replay of counter-models')
 
 NOT_APPLICABLE = {
     'C05': 'XML documents come out of Jinja templates rendered by an external engine; no function contract reaches them and the app cannot be instantiated offline (flask_login missing).',
